@@ -136,7 +136,7 @@ class C18(Check):
                  "app_sets_out": k.random() < 0.5, "snmp_patches": k.random() < 0.3}
         rates = {}
         if arm == "faults" and f.random() > 0.1:
-            for x in ("dup", "reorder", "drop", "truncate", "garbage", "peer_reset", "peer_rebind", "snmp_fail"):
+            for x in ("dup", "reorder", "drop", "truncate", "garbage", "peer_reset", "peer_rebind", "snmp_fail", "handler_restart"):
                 if f.random() < 0.5:
                     rates[x] = f.random() * 0.3
         n = k.choice([1, 2, 3, 5, 8, 13, 21, 34, 55, 89, 150])
@@ -206,6 +206,11 @@ class C18(Check):
                 self._advance(step, ip, d2)
             elif classify_in(d2) == "registration" and not op["snmp_fail"] and d2[4] != 255:
                 reg.add((ip, src[1]))
+            if rates and f.random() < rates.get("handler_restart", 0) * 0.15:
+                which = f.choice(["RDAC", "P2P"])
+                ops.append({"kind": "handler_restart", "t": round(t, 6), "dst": which})
+                if which == "RDAC":
+                    step.clear()
             if knobs["app_sets_out"] and w.random() < 0.15:
                 ops.append({"kind": "app_set_out", "t": round(t, 6), "addr": src, "out": [src[0], w.choice([P2P_PORT, 40009])]})
         ops.sort(key=lambda o: o["t"])
@@ -309,6 +314,18 @@ class C18(Check):
             res.fault("drop", case["dropped"])
 
         for i, op in enumerate(case["ops"]):
+            if op["kind"] == "handler_restart":
+                # the handler object is discarded and re-created on the same storage (volatile state lost; the storage survives)
+                if op["dst"] == "RDAC":
+                    rdac = RDACDatagramProtocol(st, callback=lambda u: done.append(u))
+                    rdac.connection_made(SimDatagramTransport("RDAC", lambda o, d, a: out.append((o, d, a))))
+                    step = {}
+                else:
+                    p2p = P2PDatagramProtocol(st, p2p_port=P2P_PORT, rdac_port=RDAC_PORT)
+                    p2p.connection_made(SimDatagramTransport("P2P", lambda o, d, a: out.append((o, d, a))))
+                res.fault("handler_restart")
+                log.add(op["t"], op["dst"], "handler_restart", None)
+                continue
             if op["kind"] == "app_set_out":
                 a = tuple(op["addr"])
                 if st.match_attr("address_in", a) is not None:
